@@ -17,6 +17,9 @@ def request(kind, method="GET", path="/bkt/key", pairs=()):
     signed, _ = sigref.sign_v4_header(method, path, list(pairs), hs, b"", ak, secret, DATE)
     if kind == "tampered":
         uri = path + "x" + ("?" + sigref.query_string(pairs) if pairs else "")
+    if kind in ("emptysig", "truncsig"):
+        signed = [(k, (v[:v.index("Signature=") + 10] + (v[v.index("Signature=") + 10:][:8] if kind == "truncsig" else "")) if k == "authorization" else v)
+                  for k, v in signed]
     return {"method": method, "uri": uri, "headers": [list(h) for h in signed]}
 
 
@@ -25,7 +28,7 @@ def family():
     for auth in (True, False):
         for access in (None, "allow", "deny", "deny_typed"):
             for route in (None, "match", "nomatch"):
-                for kind in ("anon", "valid", "badsecret", "unknownkey", "tampered"):
+                for kind in ("anon", "valid", "badsecret", "unknownkey", "tampered", "emptysig", "truncsig"):
                     cfg = {}
                     if auth:
                         cfg["auth"] = {AK: SK}
@@ -49,7 +52,7 @@ def oracle(auth, access, route, kind, out):
             return "no provider configured but a signed request reached %s" % sens[0]["ev"]
         return None
     signed_ok = kind == "valid"
-    if kind in ("badsecret", "unknownkey", "tampered"):
+    if kind in ("badsecret", "unknownkey", "tampered", "emptysig", "truncsig"):
         if sens:
             return "request with %s reached %s" % (kind, sens[0]["ev"])
         if any(n.startswith("access.") or n == "route.check_access" for n in names):
